@@ -40,6 +40,13 @@ Theorem C16_delete_keeps_well_keyed : forall items victim pos kept,
 Proof. exact remove_item_keys. Qed.
 Print Assumptions C16_delete_keeps_well_keyed.
 
+(* writing a well-keyed value at a position of a well-keyed document keeps it well-keyed
+   (what assignment does); a value rebuilt by the operators below is NOT well-keyed, see the witnesses *)
+Theorem C16_assign_keeps_well_keyed : forall p n v,
+  wk n -> (forall m, get_at n p = Some m -> wk v) -> wk (upd_at n p (fun _ => v)).
+Proof. exact wk_upd_at. Qed.
+Print Assumptions C16_assign_keeps_well_keyed.
+
 (* "after the container has been reordered, sliced, filtered, concatenated or
    rebuilt" the statement is FALSE on the faithful model (and on yq): AddChild
    keeps a child's old Key.  One witness per rebuilding operator; each is a
@@ -74,6 +81,13 @@ Proof. exists (ints [1; 1; 2]). vm_compute. reflexivity. Qed.
 Theorem C16_flatten_refuted : exists doc,
   run (kids_paths (EFlatten (-1))) doc = tag_ok ++ ser_node (paths [0; 0]) ++ [10].
 Proof. exists (Seq [(RIdx 0, ints [1]); (RIdx 1, ints [2])]). vm_compute. reflexivity. Qed.
+
+(* ... and such a value assigned back into the document carries its stale keys along: `.b |= [.]` *)
+Theorem C16_update_with_rebuilt_value_refuted : exists doc,
+  run (EPipe (EUpdate (EKey [98]) (ECollect (Some ESelf))) (ECollect (Some (EPipe ERecurse EPath)))) doc
+  = tag_ok ++ ser_node (Seq (renumber_from 0 [Seq []; Seq [(RIdx 0, Scalar TStr [98])];
+                                              Seq [(RIdx 0, Scalar TStr [98]); (RIdx 1, Scalar TStr [98])]])) ++ [10].
+Proof. exists (Map [([98], Scalar TInt [55])]). vm_compute. reflexivity. Qed.
 
 (* non-vacuity: a nested well-keyed document and a deep position *)
 Example C16_example :
